@@ -3,7 +3,7 @@ import fcntl
 import json
 import os
 import re
-import subprocess
+import subprocess, shutil
 import sys
 import time
 
@@ -188,6 +188,25 @@ def tlc(module, cfg_path, tag, workers=8, timeout=1800, simulate=None, depth=Non
         raise ToolError(f"TLC failed on {module} ({cfg_path}), rc={p.returncode}:\n{r.output[-3000:]}")
     r.ok = True
     return r
+
+
+def apalache_inductive(module, tag, init="Init", indinit="IndInit", inv="IndInv", timeout=900):
+    """Init => inv (length 0) and inv /\\ Next => inv' (length 1) with Apalache; returns seconds per obligation.
+    A refuted obligation is a defect of the model, not of the code: ToolError."""
+    out = os.path.join(workdir(tag), "apalache")
+    res = {}
+    for name, args in (("base", ["--init=" + init, "--length=0"]), ("step", ["--init=" + indinit, "--length=1"])):
+        t0 = time.time()
+        p = subprocess.run(["timeout", str(timeout), "apalache-mc", "check", "--inv=" + inv, "--out-dir=" + out] + args +
+                           [os.path.join(SPEC, module + ".tla")], cwd=workdir(tag), text=True, capture_output=True)
+        txt = (p.stdout or "") + (p.stderr or "")
+        if p.returncode == 124:
+            raise ToolError(f"apalache timed out on {module} ({name})")
+        if "EXITCODE: OK" not in txt or "The outcome is: NoError" not in txt:
+            raise ToolError(f"apalache: obligation '{name}' of {module}.{inv} is not discharged:\n" + txt[-2500:])
+        res[name] = round(time.time() - t0, 1)
+    shutil.rmtree(out, ignore_errors=True)
+    return res
 
 
 # ---------------------------------------------------------------------------------------------
